@@ -240,6 +240,12 @@ impl C16 {
             let mut caps = ProcessCaps::defaults();
             caps.max_capture_bytes_per_stream = cap;
             caps.wait_poll_ms = poll;
+            // "default_timeout": the script never calls timeout_ms; the host's default is the deadline
+            let use_default = c["default_timeout"].as_bool().unwrap_or(false);
+            if use_default {
+                caps.default_timeout_ms = timeout;
+                caps.max_timeout_ms = caps.max_timeout_ms.max(timeout.saturating_mul(4));
+            }
             let seen = if c["mode"] == "direct" {
                 let arena = Arena::new(8 << 20).unwrap();
                 let mut cmd = ProcessCommand::new("simchild", &arena);
@@ -250,7 +256,9 @@ impl C16 {
                     1 => cmd.set_stdin_policy(StdinPolicy::Null),
                     _ => cmd.set_stdin_text(ArenaString::from_str(&arena, &stdin_text)),
                 }
-                cmd.set_timeout_ms(timeout);
+                if !use_default {
+                    cmd.set_timeout_ms(timeout);
+                }
                 match cmd.validate(&caps) {
                     Err(e) => Err(format!("scenario rejected by validate: {e:?}")),
                     Ok(spec) => {
@@ -295,7 +303,9 @@ impl C16 {
                     1 => src += &format!("{ind}c.stdin_null()\n"),
                     _ => src += &format!("{ind}c.stdin_text(\"{stdin_text}\")\n"),
                 }
-                src += &format!("{ind}c.timeout_ms({timeout})\n");
+                if !use_default {
+                    src += &format!("{ind}c.timeout_ms({timeout})\n");
+                }
                 if shape == 3 {
                     src += "  return 4\nend\nmake configured get configure()\n";
                 }
@@ -306,7 +316,14 @@ impl C16 {
                     2 => src += "make holder get [0]\nmake i get 0\njasi (i small pass 1) start\n  i get i add 1\n  holder[0] get c.run()\n  make pad get \"y\" add to_string(i)\nend\nmake pad2 get \"z\" add to_string(2)\nmake r get holder[0]\n",
                     _ => src += "make r get c.run()\n",
                 }
-                src += "shout(r.success())\nshout(r.exit_code())\nshout(r.stdout())\nshout(r.stderr())\n";
+                if shape == 4 {
+                    // the captured text leaves a helper function as its return value
+                    src += "do out_of(k) start\n  return k.stdout()\nend\ndo err_of(k) start\n  return k.stderr()\nend\n";
+                    src += "make o get out_of(r)\nmake e get err_of(r)\nmake pad3 get \"w\" add to_string(3)\n";
+                    src += "shout(r.success())\nshout(r.exit_code())\nshout(o)\nshout(e)\n";
+                } else {
+                    src += "shout(r.success())\nshout(r.exit_code())\nshout(r.stdout())\nshout(r.stderr())\n";
+                }
                 let policy = HostPolicy { allow_process: true, process: caps };
                 seen_from_script(&pipeline::run_library(&src, true, Some(policy)))
             };
@@ -581,7 +598,8 @@ fn gen_scenario(r: &mut Rng, tier: Tier) -> Value {
         "pipe_cap": pipe_cap, "epipe_die": r.chance(50), "stdin_len": stdin_len, "script": script,
         "faults": faults, "jitter_seed": r.next() >> 1,
         "mode": if r.below(8) == 0 { "direct" } else { "script" },
-        "script_shape": r.pick(&[0u64, 0, 1, 2, 3]),
+        "script_shape": r.pick(&[0u64, 0, 1, 2, 3, 4]),
+        "default_timeout": r.chance(15),
     })
 }
 
@@ -810,6 +828,9 @@ impl Engine for C16 {
         }
         if case["script_shape"].as_u64().unwrap_or(0) != 0 {
             v.push(set("script_shape", json!(0)));
+        }
+        if case["default_timeout"] == true {
+            v.push(set("default_timeout", json!(false)));
         }
         let cap = case["cap"].as_u64().unwrap();
         for nc in [0, cap / 2, cap.saturating_sub(1)] {
